@@ -236,6 +236,14 @@ def part_a(chk: Check, rnd: random.Random, thorough: bool) -> None:
                 d, cid, sen = d0, cid0, sen0
                 req = req0.replace(CTLS[0], "@").replace(CTLS[1], CTLS[0]).replace("@", CTLS[1]) if rnd.random() < 0.7 else f"C:{other}"
             calls.append((d, req, cid, sen))
+        zs = [z for z in PRE_ZONES if int(z, 16) < max_zones]
+        if len(zs) >= 2 and rnd.random() < 0.3:
+            # directed: a controller (its built-in sensor) is named sensor of one of its own zones - and then of another one
+            c = rnd.choice(CTLS)
+            z1, z2 = rnd.sample(zs, 2)
+            k = rnd.randrange(len(calls) + 1)
+            calls.insert(k, (c, f"Z:{c}/{z1}", z1, True))
+            calls.insert(rnd.randrange(k + 1, len(calls) + 1), (c, f"Z:{c}/{z2}", z2, True))
 
         async def body(loop, calls=calls, max_zones=max_zones):
             return await part_a_episode(loop, calls, max_zones)
